@@ -23,11 +23,12 @@ import RattrModel.Imports
 import RattrModel.Spec.Allowed
 import RattrModel.Generated.C12
 import RattrProofs.Lemmas.C12
+import RattrProofs.Lemmas.C12Config
 
 set_option linter.unusedSectionVars false
 
 namespace Rattr.C12
-open Rattr Rattr.Imports Rattr.Spec Rattr.Resolve
+open Rattr Rattr.Imports Rattr.Spec Rattr.Resolve Rattr.FollowConfig
 
 variable {ν ω : Type} [DecidableEq ν] [DecidableEq ω]
 
@@ -861,5 +862,299 @@ example : (bfs gEx (levelFlags 1) 2 tEx) = .outOfFuel
     { analysed := [1, 2], seen := [11, 12], skipped := [], pops := 2 } := by decide
 
 end Witnesses
+
+/-! ## Real files: "each once" counts analyses per REAL file
+
+`seen_module_origins` compares origin *strings*. That the strings identify files is the job of
+`find_module_in_path` (`python_path.resolve()`, Tie A `tieA_locate_origin`): `OriginsCanonical`. -/
+
+/-- Tie A: `find_module_in_path` resolves the SEARCH DIRECTORY, joins the parts of the dotted name
+below it, and returns that path without resolving it again — `Imports.originIn`. -/
+theorem tieA_locate_origin :
+    Generated.C12.locateOps =
+      ["if modulename == ''", "return None", "endif", "module_parts = modulename.split('.')",
+       "install_location = python_path.resolve()", "for part in module_parts",
+       "install_location /= part", "endfor", "if install_location.is_dir()",
+       "install_location /= '__init__.py'", "else",
+       "install_location = install_location.with_suffix('.py')", "endif",
+       "if not install_location.exists()", "return None", "endif", "return install_location"] := by
+  decide
+
+/-- The spelling of a search directory is irrelevant: two spellings of one directory (through a
+symlink, `./x`, `x/../x`, a trailing slash) give the same origin for the same module. -/
+theorem origin_spelling_irrelevant {σ : Type} (resolve : σ → List Str) (d d' : σ) (rel : List Str)
+    (h : resolve d = resolve d') : originIn resolve d rel = originIn resolve d' rel := by
+  unfold originIn; rw [h]
+
+/-- A search directory nested in another one (`proj/pk` on the path next to `proj`): the file
+`pk/s0.py` has ONE origin under its two names `pk.s0` and `s0` — the first half of the known finding
+`second-name-of-analysed-file-missing-from-import-irs` (`C12_cex_two_names_one_origin`). -/
+theorem origin_nested_search_dir {σ : Type} (resolve : σ → List Str) (d d' : σ) (p rel : List Str)
+    (h : resolve d' = resolve d ++ p) : originIn resolve d' rel = originIn resolve d (p ++ rel) := by
+  unfold originIn; rw [h, List.append_assoc]
+
+theorem originsCanonicalB_iff {ρ : Type} [DecidableEq ρ] (g : Graph ν ω) (real : ω → ρ) :
+    originsCanonicalB g real = true ↔ OriginsCanonical g real := by
+  unfold originsCanonicalB OriginsCanonical
+  simp only [List.all_eq_true]
+  constructor
+  · intro h a ha b hb oa ob hoa hob hr
+    have := h a ha b hb
+    simp only [hoa, hob, Bool.or_eq_true, Bool.not_eq_true', decide_eq_false_iff_not,
+      decide_eq_true_eq] at this
+    rcases this with h1 | h1
+    · exact absurd hr h1
+    · exact h1
+  · intro h a ha b hb
+    cases hoa : a.origin with
+    | none => simp
+    | some oa =>
+      cases hob : b.origin with
+      | none => simp
+      | some ob =>
+        simp only [Bool.or_eq_true, Bool.not_eq_true', decide_eq_false_iff_not, decide_eq_true_eq]
+        by_cases hr : real oa = real ob
+        · exact Or.inr (h a ha b hb oa ob hoa hob hr)
+        · exact Or.inl hr
+
+/-- **C12, "each once", per real file.** If origins are canonical (`OriginsCanonical`), no REAL file
+is analysed twice — for every graph (several names per file, cycles, diamonds), flags and fuel. -/
+theorem C12_once_real {ρ : Type} (g : Graph ν ω) (real : ω → ρ) (fl : Flags) (fuel : Nat)
+    (target : List (Imp ν)) (hc : OriginsCanonical g real) :
+    (realFiles g real (bfs g fl fuel target).state.analysed).Nodup := by
+  have hnd := (C12_once g fl fuel target).1
+  have hadm := bfs_admitted g fl fuel target
+  have hmap : realFiles g real (bfs g fl fuel target).state.analysed
+      = ((bfs g fl fuel target).state.analysed.map (originOf g)).map (Option.map real) := by
+    simp [realFiles, originOf, List.map_map, Function.comp_def]
+  rw [hmap]
+  unfold List.Nodup at hnd ⊢
+  rw [List.pairwise_map]
+  refine hnd.imp_of_mem ?_
+  intro x y hx hy hne hxy
+  apply hne
+  rw [List.mem_map] at hx hy
+  obtain ⟨n, hn, rfl⟩ := hx
+  obtain ⟨n', hn', rfl⟩ := hy
+  obtain ⟨m, o, hl, ho, _⟩ := hadm n hn
+  obtain ⟨m', o', hl', ho', _⟩ := hadm n' hn'
+  have e1 : originOf g n = some o := by simp [originOf, hl, ho]
+  have e2 : originOf g n' = some o' := by simp [originOf, hl', ho']
+  rw [e1, e2] at hxy ⊢
+  simp only [Option.map_some, Option.some.injEq] at hxy
+  rw [hc m (lookup_mem hl).1 m' (lookup_mem hl').1 o o' ho ho' hxy]
+
+section RealWitnesses
+
+private def mkO (name : Nat) (origin : List Str) : Module Nat (List Str) :=
+  { name := name, origin := some origin, readable := true, blacklisted := false, inPip := false,
+    inStdlib := false, excluded := false, imports := [] }
+
+/-- `proj/lnk -> pk`: search dir `proj` (spelling 0), module 1 = `pk.s0`, module 2 = `lnk.s0`. -/
+private def resolve0 : Nat → List Str := fun _ => [str "proj"]
+private def gLnk : Graph Nat (List Str) :=
+  [mkO 1 (originIn resolve0 0 [str "pk", str "s0.py"]), mkO 2 (originIn resolve0 0 [str "lnk", str "s0.py"])]
+private def tLnk : List (Imp Nat) := [⟨some 1, false⟩, ⟨some 2, false⟩]
+/-- realpath: the segment `lnk` is a symlink to `pk`. -/
+private def realLnk (p : List Str) : List Str := p.map fun s => if s = str "lnk" then str "pk" else s
+
+/-- **Counterexample (known finding).** A symlink BELOW a search dir: the two names of the one file
+have different origins, so the file is analysed twice (and both names are keys of `import_irs`). -/
+theorem C12_cex_symlink_below_search_dir :
+    bfs gLnk (levelFlags 1) (fuelBound gLnk tLnk) tLnk
+      = .done { analysed := [1, 2],
+                seen := [[str "proj", str "pk", str "s0.py"], [str "proj", str "lnk", str "s0.py"]],
+                skipped := [], pops := 2 }
+    ∧ ¬ (realFiles gLnk realLnk [1, 2]).Nodup
+    ∧ OriginInjective gLnk ∧ ¬ OriginsCanonical gLnk realLnk := by
+  refine ⟨by decide, by decide, by decide, ?_⟩
+  rw [← originsCanonicalB_iff]; decide
+
+/-- Non-vacuity of `C12_once_real`: two search-dir spellings of one directory (1 = `via/proj`
+through a symlink, 0 = `proj`), one file under the names 1 (`pk.s0`, found via spelling 0) and 2
+(`s0`, found via the nested dir `proj/pk` spelled through the symlink): ONE origin, analysed once. -/
+private def resolveVia : Nat → List Str
+  | 0 => [str "proj"]
+  | _ => [str "proj", str "pk"]
+private def gVia : Graph Nat (List Str) :=
+  [mkO 1 (originIn resolveVia 0 [str "pk", str "s0.py"]), mkO 2 (originIn resolveVia 1 [str "s0.py"])]
+
+example : OriginsCanonical gVia id ∧
+    (bfs gVia (levelFlags 1) (fuelBound gVia tLnk) tLnk).state.analysed = [1] ∧
+    (realFiles gVia id (bfs gVia (levelFlags 1) (fuelBound gVia tLnk) tLnk).state.analysed).Nodup := by
+  refine ⟨?_, by decide, by decide⟩
+  rw [← originsCanonicalB_iff]; decide
+
+end RealWitnesses
+
+/-! ## How the follow level reaches the loop: command line, pyproject.toml, `-c` file, default
+
+`FollowConfig.stage` = `Cli.parseArguments` (the two-pass configuration stage, model of C20) ∘
+`Arguments.follow_imports` ∘ `Imports.bfs`. -/
+
+/-- Tie A: in both regenerated option tables exactly ONE option writes `_follow_imports_level`:
+`-f` / `--follow-imports`, `store`, `int`, choices 0..3, default 1 (no legacy flag); the TOML key is
+`follow-imports` of type int and is passed on under its own name. -/
+theorem tieA_follow_option :
+    followOpts Cli.tomlParser = [followOpt] ∧ followOpts Cli.cliParser = [followOpt] ∧
+    followOpt.flags = [str "-f", str "--follow-imports"] ∧ followOpt.action = .store ∧
+    followOpt.vtype = .int ∧ followOpt.default = .int 1 ∧
+    followOpt.choices = some [.int 0, .int 1, .int 2, .int 3] ∧
+    Dict.get? Cli.tomlTypeMap followKey = some Cli.TomlType.int ∧
+    Cli.argName Cli.tomlNameMap followKey = str "--follow-imports" := by
+  decide +kernel
+
+/-- Tie A: `Arguments.follow_*_imports` of level `lvl` (regenerated table) are the bits
+`flagsOfVal` computes, which are the documented ones. -/
+theorem tieA_flagsOfVal :
+    ∀ lvl : Nat, lvl < 4 → flagsOfVal (.int (lvl : Int)) = some (genFlags lvl) ∧ genFlags lvl = levelFlags lvl := by
+  decide
+
+/-- **C12, the configured level.** Whenever `parse_arguments` succeeds, the level it hands on is
+`Spec.effective` of what the selected TOML table says and what the command line says: the last
+`-f` or `--follow-imports` of the command line, else the TOML value, else 1. For ALL worlds of TOML
+files and ALL argument lists. -/
+theorem C12_configured_level (w : Cli.World) (argv : List Cli.Text) (eoe : Bool) (ns : Cli.Namespace)
+    (h : Cli.parseArguments w none argv eoe = .ok ns) :
+    ∃ conf, selectedToml w argv = some conf ∧
+      Dict.get? ns levelDest = some (Spec.effective .scalar (.int 1)
+        (C20.tomlSays followOpt ((Cli.translate Cli.tomlNameMap conf).map Cli.lex))
+        (C20.cliSays followOpt (argv.map Cli.lex))) := by
+  obtain ⟨conf, ns1, hsel, h1, h2⟩ := parseArguments_ok w argv eoe ns h
+  refine ⟨conf, hsel, ?_⟩
+  have := C20.C20_precedence followOpt followOpt_mem _ _ ns1 ns h1 h2
+  have hd : followOpt.dest = levelDest := by rw [followOpt_eq]
+  have hk : C20.kindOf followOpt = .scalar := by rw [followOpt_eq]; rfl
+  have hdef : followOpt.default = .int 1 := by rw [followOpt_eq]
+  rw [hd, hk, hdef] at this
+  exact this
+
+/-- **C12, level from TOML only** (pyproject.toml, a parent's pyproject.toml, or the `-c` file —
+whichever `selectedToml` picks): `follow-imports = N` anywhere in the table, a command line that does
+not mention the option: the level is `N` — in particular for `N = 0`. -/
+theorem C12_level_from_toml (w : Cli.World) (argv : List Cli.Text) (eoe : Bool) (ns : Cli.Namespace)
+    (h : Cli.parseArguments w none argv eoe = .ok ns) (a b : Cli.Toml) (N : Int)
+    (hsel : selectedToml w argv = some (a ++ (followKey, .sc (.int N)) :: b))
+    (ha : quiet followOpt ((Cli.translate Cli.tomlNameMap a).map Cli.lex) = true)
+    (hb : quiet followOpt ((Cli.translate Cli.tomlNameMap b).map Cli.lex) = true)
+    (hcli : quiet followOpt (argv.map Cli.lex) = true) :
+    Dict.get? ns levelDest = some (.int N) := by
+  obtain ⟨conf, hsel', hv⟩ := C12_configured_level w argv eoe ns h
+  rw [hsel] at hsel'; injection hsel' with hsel'; subst hsel'
+  rw [hv, tomlSays_follow a b N ha hb, cliSays_follow_quiet _ hcli]
+  rfl
+
+/-- **C12, the command line wins**: the last `-f` or `--follow-imports` value of the command line is the
+level, whatever any TOML file says. -/
+theorem C12_level_from_cli (w : Cli.World) (argv : List Cli.Text) (eoe : Bool) (ns : Cli.Namespace)
+    (h : Cli.parseArguments w none argv eoe = .ok ns) (v : Cli.Val)
+    (hlast : (C20.vals followOpt (argv.map Cli.lex)).getLast? = some v) :
+    Dict.get? ns levelDest = some v := by
+  obtain ⟨conf, _, hv⟩ := C12_configured_level w argv eoe ns h
+  have hact : followOpt.action = .store := by rw [followOpt_eq]
+  rw [hv]
+  simp only [Spec.effective, C20.cliSays, hact, hlast]
+
+/-- **C12, default**: neither source mentions the option: level 1. -/
+theorem C12_level_default (w : Cli.World) (argv : List Cli.Text) (eoe : Bool) (ns : Cli.Namespace)
+    (h : Cli.parseArguments w none argv eoe = .ok ns) (conf : Cli.Toml)
+    (hsel : selectedToml w argv = some conf)
+    (hq : quiet followOpt ((Cli.translate Cli.tomlNameMap conf).map Cli.lex) = true)
+    (hcli : quiet followOpt (argv.map Cli.lex) = true) :
+    Dict.get? ns levelDest = some (.int 1) := by
+  obtain ⟨conf', hsel', hv⟩ := C12_configured_level w argv eoe ns h
+  rw [hsel] at hsel'; injection hsel' with hsel'; subst hsel'
+  rw [hv, tomlSays_follow_quiet _ hq, cliSays_follow_quiet _ hcli]
+  rfl
+
+/-- **C12, end to end.** Whatever the channel: if the configured stage runs the import loop, it
+runs it with the bits of ONE documented level `N < 4`, `N` is the effective level of the two sources,
+and everything analysed is in `Spec.Reach` for that level. -/
+theorem C12_stage_respects_level (w : Cli.World) (argv : List Cli.Text) (g : Graph ν ω)
+    (target : List (Imp ν)) (fl : Flags) (out : Out ν ω)
+    (h : stage w argv g target = .ran fl out) :
+    ∃ conf, ∃ N : Nat, N < 4 ∧ selectedToml w argv = some conf ∧
+      Spec.effective .scalar (.int 1)
+        (C20.tomlSays followOpt ((Cli.translate Cli.tomlNameMap conf).map Cli.lex))
+        (C20.cliSays followOpt (argv.map Cli.lex)) = .int (N : Int) ∧
+      fl = levelFlags N ∧ out = bfs g (levelFlags N) (fuelBound g target) target ∧
+      (ExclusionHonoured g (levelFlags N) → ∀ n ∈ out.state.analysed, Reach g (levelFlags N) target n) := by
+  unfold stage at h
+  cases hp : Cli.parseArguments w none argv true with
+  | ok ns =>
+    simp only [hp] at h
+    obtain ⟨conf, hsel, hv⟩ := C12_configured_level w argv true ns hp
+    cases hf : (Dict.get? ns levelDest).bind flagsOfVal with
+    | none => simp [hf] at h
+    | some fl' =>
+      simp only [hf, Stage.ran.injEq] at h
+      obtain ⟨rfl, rfl⟩ := h
+      rw [hv] at hf
+      simp only [Option.bind_some] at hf
+      obtain ⟨N, hN, hval, hfl⟩ := flagsOfVal_some hf
+      subst hfl
+      refine ⟨conf, N, hN, hsel, hval, rfl, rfl, ?_⟩
+      intro hex n hn
+      exact C12_bfs_sound g _ _ target (flagsOK_levels N) hex n hn
+  | cliError e => simp [hp] at h
+  | tomlError e => simp [hp] at h
+  | tomlFatal e => simp [hp] at h
+
+/-- **C12, level 0 through TOML.** `follow-imports = 0` in the TOML table that applies and a command
+line silent about the option: the stage (if it gets as far as the loop) analyses NOTHING. -/
+theorem C12_stage_level0_via_toml (w : Cli.World) (argv : List Cli.Text) (g : Graph ν ω)
+    (target : List (Imp ν)) (fl : Flags) (out : Out ν ω)
+    (h : stage w argv g target = .ran fl out) (a b : Cli.Toml)
+    (hsel : selectedToml w argv = some (a ++ (followKey, .sc (.int 0)) :: b))
+    (ha : quiet followOpt ((Cli.translate Cli.tomlNameMap a).map Cli.lex) = true)
+    (hb : quiet followOpt ((Cli.translate Cli.tomlNameMap b).map Cli.lex) = true)
+    (hcli : quiet followOpt (argv.map Cli.lex) = true) :
+    fl = levelFlags 0 ∧ out.state.analysed = [] := by
+  obtain ⟨conf, N, hN, hsel', heff, hfl, hout, _⟩ := C12_stage_respects_level w argv g target fl out h
+  rw [hsel] at hsel'; injection hsel' with hsel'; subst hsel'
+  rw [tomlSays_follow a b 0 ha hb, cliSays_follow_quiet _ hcli] at heff
+  have hN0 : N = 0 := by
+    simp only [Spec.effective, List.getLast?_nil] at heff
+    injection heff with heff
+    omega
+  subst hN0
+  exact ⟨hfl, by rw [hout]; exact (C12_level0_empty g _ target).1⟩
+
+section ConfigWitnesses
+open Cli
+
+private def wToml (n : Int) : World :=
+  { overrideFile := none, parents := [],
+    cwd := { vcs := false, pyproject := some (.table [(str "strict", .sc (.bool false)), (followKey, .sc (.int n)),
+                                                       (str "exclude-imports", .list [.str (.word (str "lm1"))])]) } }
+private def argvT : List Text := [.word (str "target.py")]
+
+/-- Non-vacuity (kernel evaluation of the whole configuration stage on the regenerated tables):
+`follow-imports = 0` in pyproject.toml, nothing on the command line → level 0, pattern `lm1`;
+`-f 2` on the command line overrides `follow-imports = 0`; a `-c` file overrides pyproject.toml. -/
+example : C20.outGet (parseArguments (wToml 0) none argvT true) levelDest = some (.int 0) ∧
+    C20.outGet (parseArguments (wToml 3) none argvT true) levelDest = some (.int 3) ∧
+    C20.outGet (parseArguments (wToml 0) none argvT true) exclDest = some (.texts [.word (str "lm1")]) ∧
+    C20.outGet (parseArguments (wToml 0) none (argvT ++ [.word (str "-f"), .num 2]) true) levelDest = some (.int 2) ∧
+    C20.outGet (parseArguments { wToml 0 with overrideFile := some (.table [(followKey, .sc (.int 2))]) } none
+      ([.word (str "-c"), .word (str "alt.toml")] ++ argvT) true) levelDest = some (.int 2) := by
+  decide +kernel
+
+example : selectedToml (wToml 0) argvT = some ([(str "strict", .sc (.bool false))] ++ (followKey, .sc (.int 0)) ::
+      [(str "exclude-imports", .list [.str (.word (str "lm1"))])]) ∧
+    quiet followOpt ((translate tomlNameMap [(str "strict", .sc (.bool false))]).map lex) = true ∧
+    quiet followOpt ((translate tomlNameMap [(str "exclude-imports", .list [.str (.word (str "lm1"))])]).map lex) = true ∧
+    quiet followOpt (argvT.map lex) = true := by
+  decide +kernel
+
+/-- The stage on the 4-module example graph with `follow-imports = 0` from TOML: the loop is not
+entered; with `follow-imports = 2`: the level-2 set. -/
+example : (match stage (wToml 0) argvT gEx tEx with | .ran fl out => some (fl, out.state.analysed) | _ => none)
+      = some (levelFlags 0, []) ∧
+    (match stage (wToml 2) argvT gEx tEx with | .ran fl out => some (fl, out.state.analysed) | _ => none)
+      = some (levelFlags 2, [1, 2, 3, 5, 4]) := by
+  decide +kernel
+
+end ConfigWitnesses
 
 end Rattr.C12
